@@ -19,6 +19,8 @@ package main
 //	L  leader          a real LeaderController (replication factor 1) takes requests through WriteBlock /
 //	                   CreateSession / CloseSession; afterwards its own WAL (its offsets and timestamps) is
 //	                   replayed on a fresh kv.DB: the two databases must be identical
+//	LC leader+cancel   c06_cancel.go: replication factor 2, the harness holds the follower's acks; callers of some
+//	                   writes go away between WAL sync and commit; leader DB vs its log replayed vs a real follower
 //
 // After each route the controller is closed and its database is dumped (kv.NewDB on the same factory).
 //
@@ -763,6 +765,7 @@ func c06CtlMain(o *hx.Out, f hx.Flags) {
 		c06RouteFollowerSnapshot(o, crng.Fork(), lg)
 		c06RouteElected(o, crng.Fork(), lg)
 		c06RouteLeader(o, crng.Fork(), lg.shard, lg.term, lg.en)
+		c06RouteLeaderCancel(o, crng.Fork(), lg.shard, lg.term, lg.en)
 	}
 	o.Extra["go_seconds"] = time.Since(t0).Seconds()
 }
